@@ -38,7 +38,7 @@ for _c, _names in {
     "reduce": ["sum", "mean", "min", "max", "first", "last", "count", "var", "std", "size", "ratio", "subset_ratio", "density"],
     "transform": ["sum_t", "mean_t", "max_t", "first_t", "count_t", "size_t"],
     "rowwise": ["cumsum", "cummin", "cummax", "cumcount", "shift", "diff", "ema", "rolling_sum", "rolling_mean", "rolling_min", "rolling_max", "nearby"],
-    "layout": ["rolling_sum_g", "rolling_max_g", "ema_g", "cumsum_g"],
+    "layout": ["rolling_sum_g", "rolling_max_g", "ema_g", "ema_t_g"],
     "select": ["head", "tail", "nth", "head_i", "nth_i", "head_all", "tail_all", "head_all_i"],
     "apply": ["apply", "median", "quantile", "agg"],
     "groups": ["groups"], "keycount": ["key_count"], "counts": ["count_ikey", "count_ikey_m"],
@@ -350,8 +350,8 @@ class World:
         if name.startswith("rolling_"):
             g = name.endswith("_g")
             return getattr(gb, name[:-2] if g else name)(v, 2, mask=bm, min_periods=1, index_by_groups=g)
-        if name == "cumsum_g":
-            return gb.cumsum(v, mask=bm, index_by_groups=True)
+        if name == "ema_t_g":
+            return gb.ema(v, halflife="1h", times=t, mask=bm, index_by_groups=True)
         if name == "nearby":
             return gb.group_nearby_members(np.arange(self.n, dtype=float), 1.0)
         if name in ("head", "tail"):
